@@ -15,9 +15,21 @@ Fixpoint listN_eqb (a b : list N) : bool :=
   | _, _ => false
   end.
 
-Definition site := (list N * list N * list N)%type.
+(* SAll: a site reconciled by _syncChildren (old children, wanted nodes, children after);
+   SProfile: profile_COMMON of an effect (old children, parameter nodes, children after, the
+   identities that are <newparam> elements, the identity of <technique>) *)
+Inductive site :=
+  | SAll (old want got : list N)
+  | SProfile (old params got newparams : list N) (tec : N).
 Definition site_ok (s : site) : bool :=
-  let '(old, want, got) := s in listN_eqb (py_sync old want) got.
+  match s with
+  | SAll old want got => listN_eqb (py_sync old want) got
+  | SProfile old params got nps tec =>
+      (* Effect.save may also create the <extra> carrying double_sided (Stage 2, not modelled):
+         children that are neither old nor parameter nodes are left out of the comparison *)
+      listN_eqb (profile_sync (fun c => memN c nps) tec old params)
+                (filter (fun c => memN c old || memN c params) got)
+  end.
 
 Fixpoint skel_eqb (a b : skel) : bool :=
   let 'Sk u k := a in
